@@ -233,7 +233,9 @@ func checkC10(raw json.RawMessage) (ev.Result, error) {
 	}
 	if !ld.Nil {
 		// the statement speaks about loads that return nil
-		if !c.Divergent && !c.EnosysFault {
+		// (statistics of unexpected failures: the configurations in which the kernel has to refuse are not counted)
+		expected := c.Divergent || c.EnosysFault || (c.Uid != 0 && !c.NNP) || (c.EinvalLog && c.Flag&2 != 0)
+		if !expected {
 			c10Stats.loadFailed++
 		}
 		res.Classes = append(res.Classes, "load-failed(no-claim)")
